@@ -82,14 +82,9 @@ func staticKey(v ssa.Value) string {
 		}
 		return "*"
 	case *ssa.Alloc:
-		if !x.Heap {
-			return ""
-		}
-		elem := x.Type().(*types.Pointer).Elem()
-		if at, ok := elem.Underlying().(*types.Array); ok {
-			return elemKey(at.Elem())
-		}
-		return typeKey(elem)
+		// a variable or object created by this very function: writes to it are invisible to callers (the
+		// object did not exist before the call)
+		return ""
 	case *ssa.Global:
 		return "glob:" + pkgShort(x.Pkg.Pkg) + "." + x.Name()
 	case *ssa.FreeVar:
@@ -301,7 +296,7 @@ func (p *Prog) addContractFrame(w *wset, fc *FuncContract) {
 
 func (p *Prog) addCallee(w *wset, caller, callee *ssa.Function, cc *ssa.CallCommon, calls map[*ssa.Function][]*ssa.Function) {
 	if fc := p.ContractForFunc(callee); fc != nil && (callee.Synthetic == "" || len(callee.Blocks) == 0) {
-		if fc.ModAll || len(fc.Modifies) > 0 {
+		if fc.ModAll || fc.ModInferred || len(fc.Modifies) > 0 {
 			if len(callee.Blocks) > 0 && isRepoFunc(callee) {
 				calls[caller] = append(calls[caller], callee)
 				return
